@@ -81,6 +81,13 @@ def reldev(got, exact, scale=None):
     return float(np.abs(got - exact).max()) / s
 
 
+def _component(value, k):
+    try:
+        return float(value[k])
+    except Exception:  # noqa: BLE001 - a malformed return value is a deviation, not a harness error
+        return float("nan")
+
+
 def call(fn, *args):
     try:
         return True, fn(*args)
@@ -189,6 +196,8 @@ class Replayer:
             ok, m = call(T.voigt_vector_to_matrix, e)
             self.judge("voigt_vector_to_matrix", "unit-vector->matrix", ok, m, sarr(c["XM"], (6, 6)), replay=dict(rid, k=c["k"], expected=c["XM"]))
         ok, dv = call(T.voigt_decompose, M)
+        if ok and not (isinstance(dv, (tuple, list)) and len(dv) == 2):
+            ok, dv = False, "not-a-pair"
         self.judge("voigt_decompose", "dilatational", ok, dv[0] if ok else dv, qarr(c["d"], (3, 3)), replay=dict(rid, M=c["M"], expected=c["d"]))
         self.judge("voigt_decompose", "deviatoric", ok, dv[1] if ok else dv, qarr(c["v"], (3, 3)), replay=dict(rid, M=c["M"], expected=c["v"]))
         self.chk.count(("mat", c["kind"], json.dumps(rid, sort_keys=True)))
@@ -252,7 +261,7 @@ class Replayer:
                 "invariants_second_order",
                 f"I{k + 1}=e{k + 1}(eigenvalues)",
                 ok,
-                float(got[k]) if ok else got,
+                _component(got, k) if ok else got,
                 qf(c["e"][k]),
                 scale=s ** (k + 1),
                 replay=dict(A=c["A"], eigenvalues=c["l"], expected=c["e"]),
@@ -274,7 +283,11 @@ class Replayer:
         if not ok:
             self.judge("polar_decompose", "returns", False, out, None, sig=sig, replay=rep)
             return
-        Rg, Sg = np.asarray(out[0], dtype=float), np.asarray(out[1], dtype=float)
+        try:
+            Rg, Sg = np.asarray(out[0], dtype=float), np.asarray(out[1], dtype=float)
+        except Exception:  # noqa: BLE001
+            self.judge("polar_decompose", "returns", False, "not-a-pair-of-arrays", None, sig=sig, replay=rep)
+            return
         sc = max(1.0, float(np.abs(M).max()))
         eye = np.eye(3)
         self.judge("polar_decompose", "orthogonal-factor-orthogonal", True, Rg.T @ Rg if Rg.shape == (3, 3) else Rg, eye, kappa=kappa, scale=1.0, sig=sig, replay=rep)
@@ -298,14 +311,30 @@ def _sym6(rng):
 
 def sample_measures(T, rp, rng, n):
     """Evaluate the defining equations on the implementation's outputs for seeded random inputs.
-    Returns (events, inputs): one integer measure per event (units 1e-15 relative), judged by TLC."""
+    Returns (events, inputs): one integer measure per event (units 1e-15 relative), judged by TLC.
+    A measure whose evaluation raises inside pydrex is logged as infinite (capped), never as a harness error."""
     from scipy.spatial.transform import Rotation
 
     ev, inp = [], []
 
-    def log(fn, clause, dev, k=1, **info):
+    def measure(fn, clause, thunk, k=1, **info):
+        try:
+            dev = float(thunk())
+        except Exception as ex:  # noqa: BLE001 - the implementation failing is a (maximal) deviation
+            dev = float("inf")
+            info["raised"] = f"{type(ex).__name__}: {ex}"[:200]
         ev.append(dict(fn=fn, clause=clause, m=cap(dev * 1e15), k=int(k)))
         inp.append(info)
+
+    def memo(thunk):
+        box = []
+
+        def get():
+            if not box:
+                box.append(np.asarray(thunk(), dtype=float))
+            return box[0]
+
+        return get
 
     def rel(a, b, scale):
         a, b = np.asarray(a, dtype=float), np.asarray(b, dtype=float)
@@ -313,78 +342,92 @@ def sample_measures(T, rp, rng, n):
             return float("inf")
         return float(np.abs(a - b).max()) / max(1.0, scale)
 
+    def symdefect(t):
+        return float(max(np.abs(t - t.transpose(1, 0, 2, 3)).max(), np.abs(t - t.transpose(0, 1, 3, 2)).max(), np.abs(t - t.transpose(2, 3, 0, 1)).max()))
+
     def rot(seed_like):
         return Rotation.random(random_state=int(seed_like)).as_matrix()
 
+    def linearity(f, x, y, a, b):
+        fx, fy = np.asarray(f(x.copy()), dtype=float), np.asarray(f(y.copy()), dtype=float)
+        fz = np.asarray(f(a * x + b * y), dtype=float)
+        return rel(fz, a * fx + b * fy, max(abs(a) * np.abs(fx).max(), abs(b) * np.abs(fy).max()))
+
+    sym6 = lambda: _sym6(rng)  # noqa: E731
+    vec21 = lambda: rng.normal(size=21)  # noqa: E731
     lin = {
-        "voigt_to_elastic_tensor": (lambda: _sym6(rng), lambda x: T.voigt_to_elastic_tensor(x)),
+        "voigt_to_elastic_tensor": (sym6, lambda x: T.voigt_to_elastic_tensor(x)),
         "elastic_tensor_to_voigt": (lambda: rp.tensor_from_table(_sym6(rng)), lambda x: T.elastic_tensor_to_voigt(x)),
-        "voigt_matrix_to_vector": (lambda: _sym6(rng), lambda x: T.voigt_matrix_to_vector(x)),
-        "voigt_vector_to_matrix": (lambda: rng.normal(size=21), lambda x: T.voigt_vector_to_matrix(x)),
-        "voigt_decompose[0]": (lambda: _sym6(rng), lambda x: T.voigt_decompose(x)[0]),
-        "voigt_decompose[1]": (lambda: _sym6(rng), lambda x: T.voigt_decompose(x)[1]),
-        "mono_project": (lambda: rng.normal(size=21), lambda x: T.mono_project(x)),
-        "ortho_project": (lambda: rng.normal(size=21), lambda x: T.ortho_project(x)),
-        "tetr_project": (lambda: rng.normal(size=21), lambda x: T.tetr_project(x)),
-        "hex_project": (lambda: rng.normal(size=21), lambda x: T.hex_project(x)),
+        "voigt_matrix_to_vector": (sym6, lambda x: T.voigt_matrix_to_vector(x)),
+        "voigt_vector_to_matrix": (vec21, lambda x: T.voigt_vector_to_matrix(x)),
+        "voigt_decompose[0]": (sym6, lambda x: T.voigt_decompose(x)[0]),
+        "voigt_decompose[1]": (sym6, lambda x: T.voigt_decompose(x)[1]),
+        "mono_project": (vec21, lambda x: T.mono_project(x)),
+        "ortho_project": (vec21, lambda x: T.ortho_project(x)),
+        "tetr_project": (vec21, lambda x: T.tetr_project(x)),
+        "hex_project": (vec21, lambda x: T.hex_project(x)),
     }
     for t in range(n):
         # ---- linearity of every linear map (and of rotate in its tensor argument)
-        a, b = rng.normal(size=2) * rng.choice([1.0, 10.0])
+        a, b = (float(z) for z in rng.normal(size=2) * rng.choice([1.0, 10.0]))
         for fn, (gen, f) in lin.items():
             x, y = gen(), gen()
-            fx, fy = np.asarray(f(x.copy())), np.asarray(f(y.copy()))
-            fz = np.asarray(f(a * x + b * y))
-            sc = max(abs(a) * np.abs(fx).max(), abs(b) * np.abs(fy).max())
-            log(fn, "linearity", rel(fz, a * fx + b * fy, sc), a=a, b=b, x=x.tolist(), y=y.tolist())
+            measure(fn, "linearity", lambda f=f, x=x, y=y: linearity(f, x, y, a, b), a=a, b=b, x=x.tolist(), y=y.tolist())
         R1, R2 = rot(rng.integers(2**31)), rot(rng.integers(2**31))
-        M = _sym6(rng)
-        M2 = _sym6(rng)
-        C, C2 = rp.tensor_from_table(M), rp.tensor_from_table(M2)
+        M, M2 = _sym6(rng), _sym6(rng)
+        C, C2 = rp.tensor_from_table(M), rp.tensor_from_table(M2)  # elastic tensors built from TLC's table
         fro = float(np.sqrt((C**2).sum()))
-        rc = T.rotate(C, R1)
-        log("rotate", "linearity", rel(T.rotate(a * C + b * C2, R1), a * rc + b * T.rotate(C2, R1), abs(a) * np.abs(C).max() + abs(b) * np.abs(C2).max()), a=a, b=b, R=R1.tolist())
+        measure("rotate", "linearity", lambda: linearity(lambda z: T.rotate(z, R1), C, C2, a, b), a=a, b=b, M=M.tolist(), M2=M2.tolist(), R=R1.tolist())
         # ---- rotation clauses
+        rc = memo(lambda: T.rotate(C, R1))
         info = dict(M=M.tolist(), R1=R1.tolist(), R2=R2.tolist())
-        log("rotate", "rot-norm", abs(float(np.sqrt((rc**2).sum())) - fro) / max(1.0, fro), **info)
-        log("rotate", "rot-group", rel(T.rotate(rc, R2), T.rotate(C, R2 @ R1), fro), **info)
-        log("rotate", "rot-identity", rel(T.rotate(C, np.eye(3)), C, fro), **info)
-        sym = max(np.abs(rc - rc.transpose(1, 0, 2, 3)).max(), np.abs(rc - rc.transpose(0, 1, 3, 2)).max(), np.abs(rc - rc.transpose(2, 3, 0, 1)).max())
-        log("rotate", "minor-major-symmetry", float(sym) / max(1.0, fro), **info)
+        measure("rotate", "rot-norm", lambda: abs(float(np.sqrt((rc() ** 2).sum())) - fro) / max(1.0, fro), **info)
+        measure("rotate", "rot-group", lambda: rel(T.rotate(rc(), R2), T.rotate(C, R2 @ R1), fro), **info)
+        measure("rotate", "rot-identity", lambda: rel(T.rotate(C, np.eye(3)), C, fro), **info)
+        measure("rotate", "minor-major-symmetry", lambda: symdefect(rc()) / max(1.0, fro), **info)
         u = rng.normal(size=(4, 3))
         u /= np.linalg.norm(u, axis=1)[:, None]
-        lhs = np.einsum("ijkl,i,j,k,l", rc, R1 @ u[0], R1 @ u[1], R1 @ u[2], R1 @ u[3])
-        rhs = np.einsum("ijkl,i,j,k,l", C, u[0], u[1], u[2], u[3])
-        log("rotate", "rot-law", abs(float(lhs - rhs)) / max(1.0, fro), probes=u.tolist(), **info)
+
+        def law():  # the rotated tensor, as a multilinear form on rotated probes, equals the original on the probes
+            lhs = np.einsum("ijkl,i,j,k,l", rc(), R1 @ u[0], R1 @ u[1], R1 @ u[2], R1 @ u[3])
+            rhs = np.einsum("ijkl,i,j,k,l", C, u[0], u[1], u[2], u[3])
+            return abs(float(lhs - rhs)) / max(1.0, fro)
+
+        measure("rotate", "rot-law", law, probes=u.tolist(), **info)
         # ---- conversions on random stiffness-like matrices
-        tt = np.asarray(T.voigt_to_elastic_tensor(M))
-        xv = np.asarray(T.voigt_matrix_to_vector(M))
+        tt = memo(lambda: T.voigt_to_elastic_tensor(M))
+        xv = memo(lambda: T.voigt_matrix_to_vector(M))
         sm = max(1.0, float(np.abs(M).max()))
-        sym = max(np.abs(tt - tt.transpose(1, 0, 2, 3)).max(), np.abs(tt - tt.transpose(0, 1, 3, 2)).max(), np.abs(tt - tt.transpose(2, 3, 0, 1)).max())
-        log("voigt_to_elastic_tensor", "minor-major-symmetry", float(sym) / sm, M=M.tolist())
-        log("elastic_tensor_to_voigt", "roundtrip", rel(T.elastic_tensor_to_voigt(tt), M, sm), M=M.tolist())
-        log("voigt_to_elastic_tensor", "roundtrip", rel(T.voigt_to_elastic_tensor(np.asarray(T.elastic_tensor_to_voigt(C))), C, sm), M=M.tolist())
-        log("voigt_vector_to_matrix", "roundtrip", rel(T.voigt_vector_to_matrix(xv.copy()), M, sm), M=M.tolist())
-        xr = rng.normal(size=21)
-        log("voigt_matrix_to_vector", "roundtrip", rel(T.voigt_matrix_to_vector(np.asarray(T.voigt_vector_to_matrix(xr.copy()))), xr, float(np.abs(xr).max())), x=xr.tolist())
-        log("voigt_matrix_to_vector", "isometry", abs(float(np.linalg.norm(xv)) - float(np.sqrt((tt**2).sum()))) / max(1.0, float(np.linalg.norm(xv))), M=M.tolist())
-        d, v = T.voigt_decompose(M)
-        log("voigt_decompose", "contraction", max(rel(d, np.einsum("ijkk->ij", tt), 3 * sm), rel(v, np.einsum("ikjk->ij", tt), 3 * sm)), M=M.tolist())
+        xr, y = rng.normal(size=21), rng.normal(size=21)
+        measure("voigt_to_elastic_tensor", "minor-major-symmetry", lambda: symdefect(tt()) / sm, M=M.tolist())
+        measure("elastic_tensor_to_voigt", "roundtrip", lambda: rel(T.elastic_tensor_to_voigt(tt()), M, sm), M=M.tolist())
+        measure("voigt_to_elastic_tensor", "roundtrip", lambda: rel(T.voigt_to_elastic_tensor(np.asarray(T.elastic_tensor_to_voigt(C))), C, sm), M=M.tolist())
+        measure("voigt_vector_to_matrix", "roundtrip", lambda: rel(T.voigt_vector_to_matrix(xv().copy()), M, sm), M=M.tolist())
+        measure("voigt_matrix_to_vector", "roundtrip", lambda: rel(T.voigt_matrix_to_vector(np.asarray(T.voigt_vector_to_matrix(xr.copy()))), xr, float(np.abs(xr).max())), x=xr.tolist())
+        measure("voigt_matrix_to_vector", "isometry", lambda: abs(float(np.linalg.norm(xv())) - float(np.sqrt((tt() ** 2).sum()))) / max(1.0, float(np.linalg.norm(xv()))), M=M.tolist())
+
+        def contraction():  # against the contractions of the implementation's own 4th-order tensor
+            d, v = T.voigt_decompose(M)
+            return max(rel(d, np.einsum("ijkk->ij", tt()), 3 * sm), rel(v, np.einsum("ikjk->ij", tt()), 3 * sm))
+
+        measure("voigt_decompose", "contraction", contraction, M=M.tolist())
         # ---- projectors: orthogonal projections onto nested subspaces
-        y = rng.normal(size=21)
         sx = float(np.linalg.norm(xr))
         P = {cl: getattr(T, cl + "_project") for cl in CLASSES}
         for i, cl in enumerate(CLASSES):
-            px = np.asarray(P[cl](xr.copy()))
-            py = np.asarray(P[cl](y.copy()))
+            px = memo(lambda cl=cl: P[cl](xr.copy()))
+            py = memo(lambda cl=cl: P[cl](y.copy()))
             info = dict(cls=cl, x=xr.tolist(), y=y.tolist())
-            log(cl + "_project", "proj-idempotent", rel(P[cl](px.copy()), px, sx), **info)
-            log(cl + "_project", "proj-selfadjoint", abs(float(px @ y - xr @ py)) / max(1.0, sx * float(np.linalg.norm(y))), **info)
-            log(cl + "_project", "proj-pythagoras", abs(float(xr @ xr - px @ px - (xr - px) @ (xr - px))) / max(1.0, sx * sx), **info)
+            measure(cl + "_project", "proj-idempotent", lambda cl=cl, px=px: rel(P[cl](px().copy()), px(), sx), **info)
+            measure(cl + "_project", "proj-selfadjoint", lambda px=px, py=py: abs(float(px() @ y - xr @ py())) / max(1.0, sx * float(np.linalg.norm(y))), **info)
+            measure(cl + "_project", "proj-pythagoras", lambda px=px: abs(float(xr @ xr - px() @ px() - (xr - px()) @ (xr - px()))) / max(1.0, sx * sx), **info)
             for lower in CLASSES[i + 1 :]:
-                pl = np.asarray(P[lower](xr.copy()))
-                dev = max(rel(P[lower](px.copy()), pl, sx), rel(P[cl](pl.copy()), pl, sx))
-                log(cl + "_project", "proj-nested", dev, lower=lower, **info)
+
+                def nested(cl=cl, lower=lower, px=px):
+                    pl = np.asarray(P[lower](xr.copy()), dtype=float)
+                    return max(rel(P[lower](px().copy()), pl, sx), rel(P[cl](pl.copy()), pl, sx))
+
+                measure(cl + "_project", "proj-nested", nested, lower=lower, **info)
         # ---- second-order tensors
         A = rng.normal(size=(3, 3)) * rng.choice([0.01, 1.0, 50.0])
         if t % 4 == 1:
@@ -396,9 +439,13 @@ def sample_measures(T, rp, rng, n):
             A = q1 @ np.diag([1.0, 10.0 ** -rng.integers(0, 3), 10.0 ** -rng.integers(0, 6)]) @ q2.T * rng.choice([1.0, 1e3])
         lam = np.linalg.eigvals(A)
         el = (lam.sum().real, (lam[0] * lam[1] + lam[1] * lam[2] + lam[2] * lam[0]).real, (lam[0] * lam[1] * lam[2]).real)
-        got = T.invariants_second_order(A)
         na = max(1.0, float(np.abs(A).max()))
-        log("invariants_second_order", "invariants", max(abs(float(got[k]) - el[k]) / na ** (k + 1) for k in range(3)), A=A.tolist())
+
+        def invdev():
+            got = T.invariants_second_order(A)
+            return max(abs(float(got[k]) - el[k]) / na ** (k + 1) for k in range(3))
+
+        measure("invariants_second_order", "invariants", invdev, A=A.tolist())
         sv = np.linalg.svd(A, compute_uv=False)
         cond = float(sv[0] / sv[-1]) if sv[-1] > 0 else float("inf")
         if not cond <= 1e6:
@@ -408,16 +455,11 @@ def sample_measures(T, rp, rng, n):
         for left in (True, False):
             info = dict(A=A.tolist(), left=left, cond=cond)
             fn = "polar_decompose"
-            ok, out = call(T.polar_decompose, A, left)
-            if not ok:
-                log(fn, "polar-product", float("inf"), k, raised=out, **info)
-                continue
-            Rg, Sg = np.asarray(out[0]), np.asarray(out[1])
-            sa = max(1.0, float(np.abs(A).max()))
-            log(fn, "polar-orthogonal", rel(Rg.T @ Rg, np.eye(3), 1.0), k, **info)
-            log(fn, "polar-symmetric", rel(Sg, Sg.T, sa), k, **info)
-            log(fn, "polar-psd", max(0.0, -float(np.linalg.eigvalsh((Sg + Sg.T) / 2).min())) / sa, k, **info)
-            log(fn, "polar-product", rel(Sg @ Rg if left else Rg @ Sg, A, sa), k, **info)
+            out = memo(lambda left=left: np.stack([np.asarray(z, dtype=float) for z in T.polar_decompose(A, left)]))
+            measure(fn, "polar-orthogonal", lambda out=out: rel(out()[0].T @ out()[0], np.eye(3), 1.0), k, **info)
+            measure(fn, "polar-symmetric", lambda out=out: rel(out()[1], out()[1].T, na), k, **info)
+            measure(fn, "polar-psd", lambda out=out: max(0.0, -float(np.linalg.eigvalsh((out()[1] + out()[1].T) / 2).min())) / na, k, **info)
+            measure(fn, "polar-product", lambda out=out, left=left: rel(out()[1] @ out()[0] if left else out()[0] @ out()[1], A, na), k, **info)
     return ev, inp
 
 
@@ -484,15 +526,16 @@ def main(tier):
         quiet_pydrex()
         from pydrex import tensors as T
 
-        T.polar_decompose(np.eye(3), True)
-        T.rotate(np.zeros((3, 3, 3, 3)), np.eye(3))
+        call(T.polar_decompose, np.eye(3), True)
+        call(T.rotate, np.zeros((3, 3, 3, 3)), np.eye(3))
         for f in futs:
             m, note = futs[f]
             results[m] = f.result()
             chk.add_tlc(m, results[m], note)
         negres = neg.result()
     chk.control("tlc-lemma-rejects-permuted-vector-table", negres.violated in ("WeightLemma", "VecTableLemma"), f"TensorsIdx_neg: violated={negres.violated}")
-    cases = {m: parse_printed_json(r.output, "CASE") for m, r in results.items()}
+    # TLC workers print in a scheduling-dependent order: sort, so that runs (and stored replays) are reproducible
+    cases = {m: sorted(parse_printed_json(r.output, "CASE"), key=lambda c: json.dumps(c, sort_keys=True)) for m, r in results.items()}
     # every case state must have produced exactly one parsable CASE line (no line lost between workers):
     # emitted = distinct states - seed (initial) states - lemma-only states
     lemma_only = {"TensorsBasis": 441, "TensorsProj": 441 + 21 + 1}
@@ -550,11 +593,16 @@ def main(tier):
             e = events[line - 1]
             chk.violation(dict(level="float-measure", fn=e["fn"], clause=clause), f"TensorsMeasures rejected line {line}: {e}", dict(event=e, input=inputs[line - 1]))
         chk.sample(dict(kind="measure-event", event=events[len(events) // 2]))
-        # negative controls of the judge: an exceeded budget and a smuggled conditioning factor
-        i0 = next(i for i, e in enumerate(events) if e["clause"] == "rot-group")
-        i1 = next(i for i, e in enumerate(events) if e["clause"] == "polar-product")
-        bad = [dict(events[i0], m=5000), dict(events[i0], m=5000, k=10), dict(events[i1], m=1001 * events[i1]["k"]), dict(events[i1])]
-        rj, _ = judge_measures(bad, d, "neg")
+        # negative controls of the judge (synthetic lines, independent of the implementation): exceeded
+        # budgets and a smuggled conditioning factor are rejected, lines on the budget are accepted
+        ctl = [
+            dict(fn="control", clause="rot-group", m=5000, k=1),
+            dict(fn="control", clause="rot-group", m=5000, k=10),
+            dict(fn="control", clause="polar-product", m=7001, k=7),
+            dict(fn="control", clause="polar-product", m=7000, k=7),
+            dict(fn="control", clause="rot-group", m=1000, k=1),
+        ]
+        rj, _ = judge_measures(ctl, d, "neg")
         chk.control("measure-judge-rejects-exceeded-budgets", [x for x, _ in rj] == [1, 2, 3], str(rj))
 
     # ---- 7. negative controls of the replayers: a wrong expected value must be flagged
@@ -562,7 +610,7 @@ def main(tier):
         probe = Check("C11", tier, dry=True)
         fn(Replayer(T, probe), probe)
         got = [json.loads(k).get("clause") for k, _, _ in probe.violations]
-        chk.control(label, clause in got, f"clauses flagged: {got}")
+        chk.control(label, any(str(g).startswith(clause) for g in got), f"clauses flagged: {got}")
 
     wrong = [7, 1000000007]  # a rational that differs from any expected value by > 1e-9
 
@@ -583,7 +631,8 @@ def main(tier):
     ):
         fires(lambda r, p, path=path: r.replay_matrix_case(_perturb(bc, path, wrong)), f"replayer-flags-wrong-{field}", clause)
     sc = next(c for c in rot if c["kind"] == "single" and c["q"] == [1, 1, 1, 0])
-    pc = next(c for c in rot if c["kind"] == "pair" and c["q"] != c["q2"] and c["q"] == [1, 1, 1, 0])
+    transposed = lambda R: [[R[j][i] for j in range(3)] for i in range(3)]  # noqa: E731
+    pc = next(c for c in rot if c["kind"] == "pair" and c["b"] == [1, 5] and c["q"] == [1, 1, 1, 0] and c["R21"] != transposed(c["R21"]))
 
     def ctl_rot(r, p):
         r.basis = rp.basis
@@ -591,8 +640,7 @@ def main(tier):
 
     def ctl_pair(r, p):
         r.basis = rp.basis
-        tr = [[pc["R21"][j][i] for j in range(3)] for i in range(3)]
-        r.replay_rot_case(dict(pc, R21=tr))
+        r.replay_rot_case(dict(pc, R21=transposed(pc["R21"])))
 
     fires(ctl_rot, "replayer-flags-wrong-rotated-entry", "transformation-law")
     fires(ctl_pair, "replayer-flags-wrong-composite-rotation", "group-action")
